@@ -50,6 +50,7 @@ class Interp(object):
         self.snap_counter = itertools.count(1)
         self.overrides = {}       # fn path -> python callable(interp, st, args) -> (ret, st)
         self.static_cells = {}
+        self.firstset_of = {}
         self.hash_names = {}      # const name suffix -> sym
         self.trace = False
         from . import summaries
@@ -253,6 +254,10 @@ class Interp(object):
         """Bit for `bv != 0`. Small when representable, otherwise a named atom carrying the payload."""
         if bv.known():
             return C1 if bv.uval() else C0
+        src = self.firstset_of.get(tuple(id(b) for b in bv.bits if b is not C0))
+        if src is not None:
+            # (1 << trailing_zeros(x)) != 0  <=>  x != 0
+            return self.nonzero_bit(src)
         live = [b for b in bv.bits if b is not C0]
         if len(live) == 1:
             return live[0]
@@ -273,7 +278,9 @@ class Interp(object):
                 S.add((b.sup[0], b.tt == (0, 1)))
             m = B.must(b)
             M = set(m) if M is None else (M & m)
-        a = B.atom('nz', tuple(id(b) for b in bv.bits), payload=bv, deps=deps, M=M or (), S=S)
+        # keyed by the non-zero bits with their positions (zero-extension does not change the predicate)
+        key = tuple((i, id(b)) for i, b in enumerate(bv.bits) if b is not C0)
+        a = B.atom('nz', key, payload=bv, deps=deps, M=M or (), S=S)
         return B.atom_bit(a)
 
     def cmp_atom(self, op, a, b):
@@ -575,7 +582,9 @@ class Interp(object):
                     lower_zero_lits.add((v, not p))
                 if x.kind == 's' and len(x.sup) == 1:
                     lower_zero_lits.add((x.sup[0], x.tt != (0, 1)))
-        return BV(out[:w])
+        r = BV(out[:w])
+        self.firstset_of[tuple(id(b) for b in r.bits if b is not C0)] = bv
+        return r
 
     def unop(self, op, a):
         if isinstance(a, Ite):
